@@ -4,7 +4,7 @@
    asking for a rerun —, any pre-handlers, any interrupt sets) and Proofs/Interrupt.v (the
    instance the correspondence check evaluates: Pregel and DAG channels of Model/Graph.v). *)
 From Eino Require Import Base.Util Model.Graph Model.RunLoop Model.Interrupt Model.IntrObs
-     Proofs.RunLoopSusp Proofs.InterruptNested
+     Proofs.RunLoopSusp Proofs.InterruptNested Proofs.InterruptNestedDag
      Proofs.RunLoop Proofs.RunLoopRerun Proofs.Interrupt Proofs.InterruptRerun Proofs.InterruptWitness.
 From Coq Require Import Permutation.
 Open Scope N_scope.
@@ -301,17 +301,20 @@ Section GenericSusp.
   Qed.
 End GenericSusp.
 
-(* resume_equiv_nested, for the model the correspondence evaluates: a forest F of Graphs in any-predecessor
-   mode — nested to any depth, interrupt-before/after sets and rerun tables at EVERY level (every node with
-   a rerun table has the stamping/rebuilding pre-handler: [rerun_ok'], the property's proviso), input keys,
-   state handlers — driven by [run_drive] through the store (calls without state modifier), against the
-   reference run of the same forest without any interrupt configuration ([map strip F], one call: what
-   [ref_ok] of the correspondence evaluates). Whenever the driven run completes, it completes with the
-   output of the reference run; its top-level executions are those of the reference run; and the lambda
-   executions of ALL nesting levels (node, input) are, as a multiset, those of the reference run: nothing
-   completed before an interrupt — raised inside a nested graph or not — is executed again or lost, a
-   continued nested graph does not start over, an aborted attempt is re-run on the rebuilt input. *)
-Theorem resume_equiv_nested : forall F, Forall pregel_graph F ->
+(* resume_equiv_nested, for the model the correspondence evaluates: a forest F of Graphs (batch mode) — every
+   graph in any-predecessor mode, or in all-predecessor mode without branches ([batch_graph]; END has a
+   predecessor: Compile guarantees it) — nested to any depth, interrupt-before/after sets and rerun tables at
+   EVERY level (every node with a rerun table has the stamping/rebuilding pre-handler: [rerun_ok'], the
+   property's proviso), input keys, state handlers — driven by [run_drive] through the store (calls without
+   state modifier), against the reference run of the same forest without any interrupt configuration
+   ([map strip F], one call: what [ref_ok] of the correspondence evaluates). Whenever the driven run
+   completes, it completes with the output of the reference run; its top-level executions are those of the
+   reference run; and the lambda executions of ALL nesting levels (node, input) are, as a multiset, those of
+   the reference run: nothing completed before an interrupt — raised inside a nested graph or not — is
+   executed again or lost, a continued nested graph does not start over, an aborted attempt is re-run on the
+   rebuilt input. (A flat graph is the forest [g]: this is also the rerun theorem for all-predecessor graphs
+   without branches.) *)
+Theorem resume_equiv_nested : forall F, Forall batch_graph F ->
   forall x eU0 coU eU' vU e cos e' cos' co,
     EOKe eU0 -> EOKe e ->
     run_drive (map strip F) false [] x eU0 = ([coU], eU') -> co_out coU = ODone vU ->
@@ -320,15 +323,15 @@ Theorem resume_equiv_nested : forall F, Forall pregel_graph F ->
     (co_out co = ODone vU /\
      Permutation (RunLoopSusp.good (RunLoopSusp.all_logs cos)) (co_log coU) /\
      exists LU LI, trE eU' = trE eU0 ++ LU /\ trE e' = trE e ++ LI /\ Permutation LI LU).
-Proof. exact nested_equiv_pregel_l. Qed.
+Proof. exact nested_equiv_batch_l. Qed.
 
-(* non-vacuity: START -> 2 (nested graph) -> 3 -> END, the nested graph START -> 4 -> 5 -> END has
+(* non-vacuity (1): START -> 2 (nested graph) -> 3 -> END, the nested graph START -> 4 -> 5 -> END has
    interrupt-after 4, node 3 aborts its first attempt: the hypotheses hold, the reference run completes
    (three lambda executions), the driven run takes three calls — the nested graph interrupts inside
    (nested info under node 2), node 3 asks for a rerun, the third call completes — with three completed
    lambda executions *)
 Example resume_equiv_nested_hypotheses_hold :
-  Forall pregel_graph wn_F /\
+  Forall batch_graph wn_F /\
   (exists coU eU v, run_drive (map strip wn_F) false [] wn_x (env0 []) = ([coU], eU) /\ co_out coU = ODone v /\
                     List.length (trE eU) = 3%nat) /\
   (exists co1 co2 co3 e i1 c1 v,
@@ -336,7 +339,23 @@ Example resume_equiv_nested_hypotheses_hold :
      co_out co1 = OInterrupted i1 c1 /\ map fst (ii_subs i1) = [2] /\
      (exists i2 c2, co_out co2 = OInterrupted i2 c2 /\ ii_rerun i2 = [3]) /\
      co_out co3 = ODone v /\ List.length (trE e) = 3%nat).
-Proof. exact (conj wn_pregel (conj wn_reference wn_interrupted)). Qed.
+Proof.
+  exact (conj (Forall_impl batch_graph pregel_batch wn_pregel) (conj wn_reference wn_interrupted)).
+Qed.
+
+(* non-vacuity (2), all-predecessor mode: the diamond START -> {2, 3} -> 4 -> END; node 2 aborts its first
+   attempt while node 3 completes (mid-step checkpoint: 3's output folded into the channel of 4), the second
+   call re-runs 2 and stops before the interrupt-before node 4, the third call completes *)
+Example resume_equiv_nested_dag_hypotheses_hold :
+  Forall batch_graph wd_F /\
+  (exists coU eU v, run_drive (map strip wd_F) false [] wn_x (env0 []) = ([coU], eU) /\ co_out coU = ODone v /\
+                    List.length (trE eU) = 3%nat) /\
+  (exists co1 co2 co3 e v,
+     run_drive wd_F true [] wn_x (env0 []) = ([co1; co2; co3], e) /\
+     (exists i1 c1, co_out co1 = OInterrupted i1 c1 /\ ii_rerun i1 = [2]) /\
+     (exists i2 c2, co_out co2 = OInterrupted i2 c2 /\ ii_before i2 = [4]) /\
+     co_out co3 = ODone v /\ List.length (trE e) = 3%nat).
+Proof. exact (conj wd_batch (conj wd_reference wd_interrupted)). Qed.
 
 Print Assumptions loop_split_resume.
 Print Assumptions loop_split_interrupt.
@@ -353,3 +372,4 @@ Print Assumptions rerun_equiv_flat_pregel_hypotheses_hold.
 Print Assumptions susp_equiv.
 Print Assumptions resume_equiv_nested.
 Print Assumptions resume_equiv_nested_hypotheses_hold.
+Print Assumptions resume_equiv_nested_dag_hypotheses_hold.
